@@ -6,6 +6,16 @@ props = [json.loads(l) for l in open(os.path.join(V, "properties.jsonl"))]
 
 # property -> (level text, level note, technique, design_ref)
 CLAIMED = {
+ "C11": ("TLC (MC_C11) models the positional `unmock_with` list the generator attaches (f | f(args) | _ per method; none for entraited traits) and "
+         "drives mock / partial / impl / partial-panics scenarios through the Level-1 machine (Runtime: own function, mock object as dependency, "
+         "arguments in order; mock conjuncts: the answer function sees the caller's arguments in order, the configured answer is returned, the real "
+         "function is not entered). Programs (fn, mod of 2..3 same-signature fns, entraited trait; generic / impl / no_deps / concrete deps; "
+         "sync/async; same-typed and destructured parameters) are built with the real macro (unimock feature) and run against unimock 0.6.8; TLC "
+         "(Trace_Runtime) validates the event logs, the equality of partial-mock and Impl<T> results, the expected 'cannot be unmocked' panics, and "
+         "the mock API being nameable as Mk / m::Mk::f / Mk::f (the scenarios compile).",
+         "bounded (<= 2 params quick, sampled; <= 3 thorough); unimock's own behaviour is trusted; generics in mocked signatures are not covered",
+         "TLA+ model of the unmock_with wiring + call-stack machine checked by TLC; TLC trace validation of event logs from real binaries run against unimock",
+         "7/C11"),
  "C05": ("TLC (MC_C05) models the two impls generated for a concrete-dependency function (impl Tr for C calling the function; nested trait-mode "
          "invocation giving impl<T: Tr + Sync + 'static> Tr for Impl<T> forwarding to T), checks availability through the Resolve fix-point against the "
          "statement (C, Impl<C>, App with a hand-written impl, Impl<App>, X, Impl<X>, a non-Sync App) and drives calls on C, Impl<C> (two hops) and "
